@@ -110,6 +110,8 @@ def s2(ck, an):
             ck.check(e.attr == "last_update" and e.owner == "Exchange", "EFFECT", "S2.handler-writes", subj, e.loc,
                      "the handler itself writes only Exchange.last_update", f"handler writes {e.owner}.{e.attr}", construct=stmt_text(e.node))
     lu = [s for s in assigns_to_attr(fa, "last_update")]
+    ck.check(len(lu) == 1 and not fa.syntactic_guards(lu[0]), "EFFECT", "S2.last-update-always", subj, fa.f.loc, "every quote processed advances Exchange.last_update", "Exchange.last_update is not set unconditionally by process_EventNBBO",
+             construct="self.last_update = event.time")
     for s in lu:
         v = fa.sym.canon(s.value) if isinstance(s, ast.Assign) else "?"
         ck.check(v == f"{ev}.time", "ARGFLOW", "S2.last-update", subj, fa.loc(s), "last_update is the event's time", f"last_update = {v}", construct=stmt_text(s))
@@ -247,6 +249,11 @@ def s5(ck, an):
     v0 = fe.sym.canon(rets[0].value) if rets else "?"
     ck.check("self.symbol" in v0 and ".symbol" in v0.replace("self.symbol", "", 1) and "==" in v0, "IDIOM", "S5.eq-by-symbol", fe.f.short, fe.f.loc,
              "contracts compare by symbol", f"__eq__ returns {v0}", construct="__eq__")
+    if len(rets) >= 2:
+        c1 = fe.sym.cmp(rets[1].value)
+        v1 = cmp_key(c1)
+        ck.check(c1[0] == "rel" and c1[1] == "==" and c1[4].atoms() == {"hash(self.symbol)", f"hash({fe.f.params[1]})"} and len(c1[4].t) == 2, "IDIOM", "S5.eq-with-plain-keys", fe.f.short, fe.f.loc, "a contract equals a plain key (e.g. its symbol string) iff the hashes agree", f"fallback comparison is {v1}",
+                 construct="return hash(self.symbol) == hash(other)")
     fg = an.fa("Exchange.__getitem__")
     calls = fg.calls_named("static_hashing")
     keyp = fg.f.params[1]
